@@ -762,14 +762,14 @@ pub fn run(report: &Report, tier: &Tier) {
 
     let seed = report.seed;
     let thorough = tier.thorough;
-    let per_gen: u64 = if thorough { 8_000_000 } else { 600_000 };
+    let per_gen: u64 = if thorough { 120_000_000 } else { 600_000 };
     let batch: u64 = 2000;
     let budget = tier.budget_s * 0.5;
     {
         let mut l = Local::default();
         check_input(&g5_minimal(), &mut l, "G5-overlap");
         report.merge(l);
-        let n: u64 = if thorough { 40_000 } else { 4_000 };
+        let n: u64 = if thorough { 2_000_000 } else { 4_000 };
         run_parallel(report, n / 100, threads(), budget / 6.0, |i, l| {
             let mut rng = Rng::new(util::mix(seed, 5u64 << 40 | i));
             for _ in 0..100 {
